@@ -171,6 +171,16 @@ func (e *caseEnv) valueTerm(c px.Context, v px.Value) string {
 			es = append(es, lib.GPair(e.valueTerm(c, k), e.valueTerm(c, x)))
 		})
 		return "(VHash " + lib.GList(es, "value * value") + ")"
+	case *types.RuntimeValue:
+		// a Go value kept as it is (the content of an interface{} field)
+		rv := reflect.ValueOf(v.Interface())
+		if rv.IsValid() {
+			if d := shapeOfType(rv.Type(), e.known); d != nil {
+				if pv, ok := Unbuild(d, rv, e.known); ok {
+					return "(VRuntime " + d.Gallina() + " " + pv.Gallina(d) + ")"
+				}
+			}
+		}
 	case px.PuppetObject:
 		if r, ok := v.(px.Reflected); ok {
 			rv := r.Reflect(c)
